@@ -8,7 +8,7 @@ import emd
 PROPERTY = 'C17'
 FUNCTIONS = ['emd.cycles.kdt_match', 'emd.cycles._unique_inds']
 BOUNDS = {
-    'quick': 'x with <= 3 rows and y with <= 3 rows of one symbolic real feature (ties allowed, arbitrary order), K in 1..3, '
+    'quick': 'x with <= 3 rows and y with <= 3 rows of one symbolic real feature (ties allowed, arbitrary order), K in 1..3 (3x3 rows at K = 3: a row handed out in layer j must stay unavailable in layer j+2), '
              'distance bound in {inf, symbolic positive}',
     'thorough': 'x <= 3 rows, y <= 4 rows; additionally 2 features (2x3 rows, squared distances, exact sqrt) and K up to 4',
 }
@@ -24,7 +24,7 @@ OPTS = {'quick': {'sample_every': 13}, 'thorough': {'sample_every': 29}}
 def configs(tier):
     out = []
     if tier == 'quick':
-        grid = [(2, 2, 1, 'inf'), (2, 3, 1, 'inf'), (2, 3, 2, 'inf'), (3, 3, 2, 'inf'), (3, 2, 2, 'inf'), (2, 3, 3, 'inf'),
+        grid = [(2, 2, 1, 'inf'), (2, 3, 1, 'inf'), (2, 3, 2, 'inf'), (3, 3, 2, 'inf'), (3, 2, 2, 'inf'), (2, 3, 3, 'inf'), (3, 3, 3, 'inf'),
                 (2, 3, 2, 'sym'), (3, 3, 1, 'sym')]
     else:
         grid = [(2, 3, 1, 'inf'), (3, 3, 2, 'inf'), (3, 4, 2, 'inf'), (3, 4, 3, 'inf'), (2, 4, 4, 'inf'), (3, 3, 3, 'sym'),
